@@ -36,7 +36,7 @@ func init() {
 			{Name: "audit-pipe-vs-direct", Fn: scnC07AuditPipe, Weight: 1},
 		},
 		Rule: "every one of the 22 generated message shapes (20 forms; the accepted public-key form in its three branches) with generated fields is processed twice by fresh processors: directly as (pid, message), and as '<pid><padding><message>\\n' " +
-			"written in taped chunks to a simulated FIFO read by the real syslog ingester (plus once at callback level); events (all fields but the timestamp), forwarded logins and returned errors must agree, also when the event write fails (a tenth of the runs); " +
+			"written in taped chunks to a simulated FIFO read by the real syslog ingester (plus once at callback level), in a quarter of the runs followed by the unterminated beginning of another record before the writer goes away; events (all fields but the timestamp), forwarded logins and returned errors must agree, also when the event write fails (a tenth of the runs); " +
 			"audit record groups are parsed and coalesced with and without the trailing newline; the records of generated sessions are written in taped chunks to a simulated FIFO read by the real audit-log ingester " +
 			"(read-buffer size, hand-over buffer and consumer pace taped; the consumer keeps what it was handed, as the reassembler does) and every record handed over must, when all have arrived, still parse to the message its line parses to directly; the form is enumerated within each group of runs; " +
 			"non-trivial = the direct path produced at least one event; distinct = distinct (message, padding, chunking, schedule hash)",
@@ -180,6 +180,12 @@ func scnC07Sshd(rc *RunCtx) {
 		chB = make(chan common.RemoteUserLogin)
 		lateConsumer("world.correlatorB", chB, &b.logins, stopAll)
 	}
+	fragment := ""
+	if t.Choose(4, "fragment") == 3 {
+		next := GenSshdMsg(t, []string{"accepted-password", "accepted-cert", "invalid-user"}[t.Choose(3, "fragment.form")], 77).Line(0)
+		fragment = next[:1+t.Choose(len(next)-2, "fragment.cut")]
+		rc.Sim.Count("pipe.unterminated_fragment_at_eof")
+	}
 	path := "/sim/c07-sshd-pipe"
 	pipe := rc.Sim.AddPipe(path)
 	rc.Sim.Knobs["bufio"] = []int{4096, 16, 64}[t.Choose(3, "bufio")]
@@ -198,6 +204,11 @@ func scnC07Sshd(rc *RunCtx) {
 				simrt.Sleep(time.Duration(200+rc.Sim.Tape.Choose(3000, "chunk.pause.ms"))*time.Millisecond, "world.chunk.pause")
 			}
 			w.Write(ch)
+		}
+		if fragment != "" {
+			// the writer dies in the middle of its next record: what it wrote of it is not a record
+			simrt.Point("world.fragment")
+			w.Write([]byte(fragment))
 		}
 		simrt.Point("world.close")
 		w.Close()
